@@ -49,12 +49,12 @@ func (s *Segment) getDocStoredOffsets(docNum uint64) (indexOffset, storedOffset,
 		return 0, 0, 0, 0, 0, err
 	}
 
-	metaLenData := s.storedFieldChunkUncompressed[int(storedOffset):int(storedOffset+binary.MaxVarintLen64)]
+	metaLenData := s.storedFieldChunkUncompressed[int(storedOffset):]
 	var read int
 	metaLen, read = binary.Uvarint(metaLenData)
 	n += uint64(read)
 
-	dataLenData := s.storedFieldChunkUncompressed[int(storedOffset+n):int(storedOffset+n+binary.MaxVarintLen64)]
+	dataLenData := s.storedFieldChunkUncompressed[int(storedOffset+n):]
 	dataLen, read = binary.Uvarint(dataLenData)
 	n += uint64(read)
 
